@@ -9,7 +9,11 @@ from sa.core.pyrepo import Repo
 from sa.core import canon_names as cn
 
 repo = Repo(sys.argv[1] if len(sys.argv) > 1 else "/repo")
-out = {}
+out = {"__functions__": {}}
+for mn, m in repo.modules.items():
+    # every function / method of the module, nested ones excluded ("f", "Cls.m")
+    out["__functions__"][mn] = sorted({q for q, fis in m.funcs.items()
+                                       if any(fi.parent is None for fi in fis)})
 for mn, m in repo.modules.items():
     for qual, fis in m.funcs.items():
         for k, fi in enumerate(fis):
@@ -21,4 +25,5 @@ for mn, m in repo.modules.items():
             out[f"{mn}:{qual}#{k}"] = cn.shapes(fi.node, names)
 with open(cn.REF, "w") as f:
     json.dump(out, f, separators=(",", ":"), sort_keys=True)
-print(f"{len(out)} functions, {sum(len(v) for v in out.values())} statements -> {cn.REF}")
+print(f"{len(out) - 1} functions, "
+      f"{sum(len(v) for k, v in out.items() if k != '__functions__')} statements -> {cn.REF}")
